@@ -1,6 +1,7 @@
-"""C03 - every public declaration appears in the stubs exactly once (spec/Package.tla, universe U1)."""
-from checks.topocheck import run_topology
+"""C03 - every public declaration appears in the stubs exactly once (spec/Package.tla universe U1, spec/Package2.tla universe U2)."""
+from checks.topocheck import run_topology, run_topology2
 
 
 def main(v):
     run_topology(v, ("C03",))
+    run_topology2(v)
